@@ -1,13 +1,17 @@
 package main
 
 // C19 — schema error reasons never contain the rejected value.
-// Real code exercised: VisitJSON (default and MultiErrors) on values whose every string leaf is a unique marker;
+// Real code exercised: VisitJSON (default and MultiErrors) and the exported typed entry points VisitJSONString / Array /
+// Object / Number / Boolean on values whose every string leaf is a unique marker;
 // the Reason of every SchemaError at every nesting level (Origin chains included) and the messages rendered with
 // details disabled / with a reason-only customizer are searched for markers, and the top-level reason texts are
 // compared with the model's rendered reason fragments. Through openapi3filter with WithCustomSchemaErrorFunc(reason only):
 // ValidateRequest on JSON bodies and content-described query parameters, ValidateResponse on JSON bodies and — for
 // string values — on a response HEADER declared with the schema, each fail-first and with MultiError; the texts of
 // RequestError / ResponseError / MultiError .Error() and the Title/Source that ConvertErrors derives are searched too.
+// Go-typed spellings: values the visitor does not handle (c19GoKinds, no model) and values it normalises and continues to
+// validate with the caller's settings (c19TypedVariants: typed slices, Go integers, map[any]any) — the latter compared with
+// the model of the plain value and searched on the customizer / details-disabled paths.
 
 import (
 	"bytes"
@@ -61,6 +65,131 @@ func c19GoForm(kind string, marker string) any {
 
 var c19GoKinds = []string{"namedString", "mapStringString", "struct", "structPtr", "mapAnyAnyIntKey", "stringer"}
 
+// Go-typed spellings of JSON-shaped values that visitJSON DOES handle (it normalises them and continues with the
+// caller's settings): slices whose Go type is not []any ([]string, []map[string]any, []int, []float64, []bool, a slice of
+// a named interface type, a named slice type), Go integers, and map[any]any with string keys. The validation result is the
+// one of the plain value, so these cases have a model; and every message path must stay reason-only below them.
+type c19Any any
+type c19Slice []any
+
+var c19TypedVariants = []string{"concrete", "named", "mapany"}
+
+func c19Retype(v any, variant string) any {
+	switch x := v.(type) {
+	case map[string]any:
+		if variant == "mapany" {
+			out := make(map[any]any, len(x))
+			for k, e := range x {
+				out[k] = c19Retype(e, variant)
+			}
+			return out
+		}
+		out := make(map[string]any, len(x))
+		for k, e := range x {
+			out[k] = c19Retype(e, variant)
+		}
+		return out
+	case float64:
+		if variant == "concrete" && x == float64(int32(x)) {
+			switch int(x) % 3 {
+			case 0:
+				return int(x)
+			case 1:
+				return int64(x)
+			}
+			return int32(x)
+		}
+		return x
+	case []any:
+		el := make([]any, len(x))
+		for i, e := range x {
+			el[i] = c19Retype(e, variant)
+		}
+		if variant == "named" {
+			return c19Slice(el)
+		}
+		if variant == "mapany" {
+			out := make([]c19Any, len(el))
+			for i, e := range el {
+				out[i] = e
+			}
+			return out
+		}
+		allOf := func(pred func(any) bool) bool {
+			for _, e := range el {
+				if !pred(e) {
+					return false
+				}
+			}
+			return true
+		}
+		switch {
+		case allOf(func(e any) bool { _, ok := e.(string); return ok }):
+			out := make([]string, len(el))
+			for i, e := range el {
+				out[i] = e.(string)
+			}
+			return out
+		case allOf(func(e any) bool { _, ok := e.(map[string]any); return ok }):
+			out := make([]map[string]any, len(el))
+			for i, e := range el {
+				out[i] = e.(map[string]any)
+			}
+			return out
+		case allOf(func(e any) bool { _, ok := e.([]string); return ok }):
+			out := make([][]string, len(el))
+			for i, e := range el {
+				out[i] = e.([]string)
+			}
+			return out
+		case allOf(func(e any) bool { _, ok := e.(int); return ok }):
+			out := make([]int, len(el))
+			for i, e := range el {
+				out[i] = e.(int)
+			}
+			return out
+		case allOf(func(e any) bool { _, ok := e.(float64); return ok }):
+			out := make([]float64, len(el))
+			for i, e := range el {
+				out[i] = e.(float64)
+			}
+			return out
+		case allOf(func(e any) bool { _, ok := e.(bool); return ok }):
+			out := make([]bool, len(el))
+			for i, e := range el {
+				out[i] = e.(bool)
+			}
+			return out
+		}
+		out := make([]c19Any, len(el))
+		for i, e := range el {
+			out[i] = e
+		}
+		return out
+	}
+	return v
+}
+
+// c19HasArray: the value contains an array or (for "mapany") an object, i.e. the typed spelling differs from the plain one
+func c19Retypable(v any, variant string) bool {
+	switch x := v.(type) {
+	case []any:
+		return true
+	case map[string]any:
+		if variant == "mapany" {
+			return true
+		}
+		for _, e := range x {
+			if c19Retypable(e, variant) {
+				return true
+			}
+		}
+	case json.Number, float64, int:
+		return variant == "concrete"
+	}
+	return false
+}
+
 // c19Typed replaces every {"$go": kind, "s": marker} node of a case value by the Go value it stands for
 func c19Typed(v any) any {
 	switch x := v.(type) {
@@ -90,7 +219,7 @@ func init() {
 		Rule: "the schema space of C01/C12 crossed with a value alphabet in which every string leaf is a unique marker (all JSON types, nested; strings of lengths 4–12 so that " +
 			"length, pattern, enum, format, type and composition keywords fail at depth 0–2); every Reason at every nesting level and every message path assembled from reasons " +
 			"(customizer fail-first/multi, details disabled, RequestError and ResponseError texts of body / parameter / response body / response header, fail-first/multi, ConvertErrors titles) are searched for markers; " +
-			"reason texts are compared with the model. Non-trivial = the value is rejected with at least one error (the driver reports field and nesting).",
+			"reason texts are compared with the model. Every fourth pair of the exhaustive block and every random pair is repeated with the value in a Go-typed spelling the visitor normalises (typed slices, Go integers, map[any]any). Non-trivial = the value is rejected with at least one error (the driver reports field and nesting).",
 		Exhaustive: true,
 		Gen:        genC19,
 		Run:        runC19,
@@ -101,6 +230,7 @@ func init() {
 			"validator/regexp-compiler texts inside reasons are matched as wildcards (their wording is the validator's, checked for markers only)",
 			"ConvertErrors: Title and Source are searched; the Detail it adds to an enum error quotes the value by design (not a message assembled from reasons)",
 			"typed Go values outside the JSON-shaped set (named string, map[string]string, struct, …) have no model: the marker search is the whole check for them",
+			"Go-typed spellings the visitor normalises ([]string, []map[string]any, []int, named slice/interface types, int/int32/int64, map[any]any) are compared with the model of the plain value, except under `enum` (reflect.DeepEqual on the raw value) and, for map[any]any, under uniqueItems / discriminator (raw value marshalled / type-asserted): marker search only there",
 		},
 	})
 }
@@ -194,6 +324,10 @@ func genC19(ctx *hx.Ctx, emit0 func(hx.Case)) {
 				continue
 			}
 			emit(withOracle(hx.Case{"schema": s, "value": v}))
+			// the same value handed over in a Go-typed spelling the visitor normalises (one variant per pair, all three over the space)
+			if tv := c19TypedVariants[(i+2*j)%len(c19TypedVariants)]; (i+j)%4 == 0 && c19Retypable(v, tv) {
+				emit(withOracle(hx.Case{"schema": s, "value": v, "gotyped": tv}))
+			}
 		}
 	}
 	cnt := 4000
@@ -204,7 +338,11 @@ func genC19(ctx *hx.Ctx, emit0 func(hx.Case)) {
 		s := randSchema(ctx.Rng, 1+ctx.Rng.Intn(3))
 		for j := 0; j < 3; j++ {
 			k := 0
-			emit(withOracle(hx.Case{"schema": s, "value": markerize(randValue(ctx.Rng, 1+ctx.Rng.Intn(3)), &k)}))
+			rv := markerize(randValue(ctx.Rng, 1+ctx.Rng.Intn(3)), &k)
+			emit(withOracle(hx.Case{"schema": s, "value": rv}))
+			if tv := c19TypedVariants[ctx.Rng.Intn(len(c19TypedVariants))]; c19Retypable(rv, tv) {
+				emit(withOracle(hx.Case{"schema": s, "value": rv, "gotyped": tv}))
+			}
 		}
 	}
 }
@@ -393,6 +531,9 @@ func runC19(c hx.Case) any {
 	if jbool(c, "nomodel") {
 		v = c19Typed(c["value"])
 	}
+	if tv := jstr(c, "gotyped"); tv != "" {
+		v = c19Retype(v, tv)
+	}
 	ed := s.VisitJSON(v)
 	em := s.VisitJSON(v, openapi3.MultiErrors())
 	e2 := s.VisitJSON(v, openapi3.SetSchemaErrorMessageCustomizer(reasonOnly))
@@ -407,9 +548,29 @@ func runC19(c hx.Case) any {
 	}
 	add("customizer", e2)
 	add("customizer/multi", e2m)
+	// the exported typed entry points (they start below enum / composition keywords, with default settings): their
+	// reasons are searched like the others, their texts with details disabled (below)
+	typedEntry := func() error {
+		switch x := v.(type) {
+		case string:
+			return s.VisitJSONString(x)
+		case []any:
+			return s.VisitJSONArray(x)
+		case map[string]any:
+			return s.VisitJSONObject(x)
+		case float64:
+			return s.VisitJSONNumber(x)
+		case bool:
+			return s.VisitJSONBoolean(x)
+		}
+		return nil
+	}
+	allReasons(typedEntry(), &reasons, 0)
 	paths := 0
 	// a value the schema accepts produces no schema error on any path (the filter adds only the request/response reading)
-	if body, err := json.Marshal(v); err == nil && (ed != nil || mentionsKey(c["schema"], "readOnly", "writeOnly")) {
+	// (a Go-typed spelling reaches the filter only as the JSON text of the plain value — a body decoder must return
+	// []any / map[string]any by contract —, so the filter paths of a "gotyped" case would repeat those of the plain case)
+	if body, err := json.Marshal(v); err == nil && jstr(c, "gotyped") == "" && (ed != nil || mentionsKey(c["schema"], "readOnly", "writeOnly")) {
 		// the request validator: JSON body and content-described query parameter, fail-first and multi-error; the text of
 		// the RequestError itself, and what ConvertErrors / the ValidationError encoder make of it (Title and Source; the
 		// Detail of an enum error quotes the value by design and is not a message assembled from reasons)
@@ -464,6 +625,7 @@ func runC19(c hx.Case) any {
 			openapi3.SchemaErrorDetailsDisabled = true
 			add("details-disabled/default", s.VisitJSON(v))
 			add("details-disabled/multi", s.VisitJSON(v, openapi3.MultiErrors()))
+			add("details-disabled/typed-entry", typedEntry())
 		}()
 	}
 	leaks := []any{}
@@ -615,6 +777,14 @@ func cmpC19(c hx.Case, impl any, reply map[string]any) hx.Verdict {
 	}
 	if jbool(c, "nomodel") {
 		return v // Go values outside `J`: the marker search is the whole check
+	}
+	if tv := jstr(c, "gotyped"); tv != "" {
+		// a typed spelling validates like the plain value, except where the code compares the RAW value: `enum` uses
+		// reflect.DeepEqual on it, the default uniqueItems checker marshals it (map[any]any does not marshal), the
+		// discriminator is read from a map[string]any only. There the marker search is the whole check.
+		if mentionsKey(c["schema"], "enum") || (tv == "mapany" && mentionsKey(c["schema"], "uniqueItems", "discriminator")) {
+			return v
+		}
 	}
 	// spec side: the model's own fragments must not be value strings (proved; evaluated here as the oracle)
 	if jbool(model, "valueFrag") {
